@@ -225,6 +225,10 @@ static const char* CORPUS[] = {
     "MULTICURVE ((0 0, 1 1), CIRCULARSTRING (0 0, 1 1, 2 0), COMPOUNDCURVE ((0 0, 1 1)))", "MULTICURVE (EMPTY, (0 0, 1 1))", "MULTICURVE ((0 0 1, 1 1 1), COMPOUNDCURVE EMPTY)", "MULTICURVE ((0 0 1, 1 1 1), CIRCULARSTRING EMPTY)", "MULTICURVE ((0 0 1, 1 1 1), EMPTY)", "MULTICURVE (COMPOUNDCURVE EMPTY, (0 0 1, 1 1 1))", "MULTICURVE Z ((0 0 1, 1 1 1), COMPOUNDCURVE EMPTY)", "MULTICURVE Z ((0 0 1, 1 1 1), COMPOUNDCURVE Z EMPTY)", "MULTICURVE EMPTY", "MULTICURVE (POINT (0 0))", "MULTICURVE (EMPTY)",
     "MULTISURFACE (EMPTY, CURVEPOLYGON EMPTY, ((0 0, 1 0, 1 1, 0 0)))", "MULTISURFACE (((0 0, 1 0, 1 1, 0 0)), CURVEPOLYGON (CIRCULARSTRING (0 0, 1 1, 2 0, 1 -1, 0 0)))", "MULTISURFACE (POLYGON ((0 0, 1 0, 1 1, 0 0)))", "MULTISURFACE (LINESTRING (0 0, 1 1))", "MULTISURFACE EMPTY", "MULTISURFACE (((0 0 1, 1 0 1, 1 1 1, 0 0 1)), CURVEPOLYGON EMPTY)",
     "GEOMETRYCOLLECTION (POINT (1 2), LINESTRING (0 0, 1 1))", "GEOMETRYCOLLECTION EMPTY", "GEOMETRYCOLLECTION (EMPTY)", "GEOMETRYCOLLECTION (POINT Z (1 2 3), POINT (1 2))", "GEOMETRYCOLLECTION Z (POINT Z (1 2 3), POINT (1 2))", "GEOMETRYCOLLECTION Z (POINT Z (1 2 3), POINT Z EMPTY)", "GEOMETRYCOLLECTION Z (POINT (1 2 3))", "GEOMETRYCOLLECTION Z (POINT (1 2))", "GEOMETRYCOLLECTION Z (POINT Z (1 2 3), GEOMETRYCOLLECTION EMPTY)", "GEOMETRYCOLLECTION Z (POINT Z (1 2 3), GEOMETRYCOLLECTION Z EMPTY)", "GEOMETRYCOLLECTION (GEOMETRYCOLLECTION (POINT (1 2)))", "GEOMETRYCOLLECTION M (POINT M (1 2 3), POINT (1 2))", "GEOMETRYCOLLECTION (POINT (1 2 3), POINT (1 2))", "GEOMETRYCOLLECTION ZM (POINT ZM (1 2 3 4), POINT Z (1 2 3))", "GEOMETRYCOLLECTION (POINT (1 2)) POINT (1 2)", "GEOMETRYCOLLECTION (POINT (1 2),)", "GEOMETRYCOLLECTIONZ (POINTZ (1 2 3))",
+    // deep nesting with few tokens per level (the reader model's fuel must cover 5 calls per 2 tokens)
+    "MULTISURFACE(CURVEPOLYGON(COMPOUNDCURVE(CIRCULARSTRING EMPTY)))", "GEOMETRYCOLLECTION(MULTISURFACE(CURVEPOLYGON(COMPOUNDCURVE(CIRCULARSTRING EMPTY))))",
+    "GEOMETRYCOLLECTION(GEOMETRYCOLLECTION(GEOMETRYCOLLECTION(MULTISURFACE(CURVEPOLYGON(COMPOUNDCURVE(CIRCULARSTRING EMPTY)),CURVEPOLYGON(COMPOUNDCURVE(CIRCULARSTRING EMPTY))))))",
+    "MULTICURVE(COMPOUNDCURVE(CIRCULARSTRING EMPTY),COMPOUNDCURVE(CIRCULARSTRING EMPTY))", "CURVEPOLYGON(COMPOUNDCURVE(EMPTY))", "MULTISURFACE(CURVEPOLYGON(EMPTY))",
     "FOO (1 2)", "POINTX (1 2)", "POINTZZ (1 2 3)", "Z (1 2)", "(1 2)", "1 2", "POINT EMPTY EMPTY", "POINT Z Z (1 2 3)", "POINT ZM ZM (1 2 3 4)", "POINT M M (1 2 3)", "POINT M Z (1 2 3 4)",
 };
 
